@@ -85,15 +85,43 @@ func runSystem(w *sim.World, wd *env.World, sys tlc.System, key string, st stepp
 	wd.StopAll()
 }
 
+// quick tier: constants are drawn from a small set per system so that the runs of one
+// batch share TLC starts (one start per system and constant assignment); the thorough
+// tier draws from the full ranges. The tier is recorded in every replay file.
+func quick() bool { return os.Getenv("VERIF_TIER") != "thorough" }
+
+// pick draws from 0..n-1; in the quick tier only from the listed values.
+func pick(w *sim.World, n int, quickVals ...int) int {
+	if quick() && len(quickVals) > 0 {
+		return quickVals[w.Choose(sim.KCfg, len(quickVals))]
+	}
+	return w.Choose(sim.KCfg, n)
+}
+
 func scenario(w *sim.World) {
 	last.valid = false
 	wd := env.NewWorld(w)
-	switch w.Choose(sim.KCfg, 3) {
+	switch w.Choose(sim.KCfg, 6) {
+	case 5:
+		ns, nc, explore := 1+pick(w, 2, 1), 1+pick(w, 2, 0, 1), pick(w, 3, 1) != 0
+		p := envsys.NewProxy(wd, ns, nc, explore, false) // PracticalFD, as the shipped spec instantiates
+		w.Event("system proxy servers=%d clients=%d explore=%v", ns, nc, explore)
+		runSystem(w, wd, p.TLCSystem(repoRoot), fmt.Sprintf("proxy/%d/%d/%v", ns, nc, explore), p, nil, 60+w.Choose(sim.KCfg, 120))
+	case 4:
+		ns, nc, buf := 1+pick(w, 3, 1), 1+pick(w, 2, 1), 1+pick(w, 2, 0, 1)
+		l := envsys.NewLoadBalancer(wd, ns, nc, buf, false)
+		w.Event("system loadbalancer servers=%d clients=%d buffer=%d", ns, nc, buf)
+		runSystem(w, wd, l.TLCSystem(repoRoot), fmt.Sprintf("load_balancer/%d/%d/%d", ns, nc, buf), l, nil, 40+w.Choose(sim.KCfg, 100))
+	case 3:
+		nc, buf := 1+pick(w, 3, 1), 1+pick(w, 3, 0, 1)
+		d := envsys.NewDQueue(wd, nc, buf, false)
+		w.Event("system dqueue consumers=%d buffer=%d", nc, buf)
+		runSystem(w, wd, d.TLCSystem(repoRoot), fmt.Sprintf("dqueue/%d/%d", nc, buf), d, nil, 40+w.Choose(sim.KCfg, 100))
 	case 2:
 		runPBKVS(w, wd)
 	case 1:
 		// raftkvs: the bag network of the spec (any delivery order) in half of the runs
-		out := raftrun.Run(w, raftrun.Options{RecordTrace: true, MaxSteps: 200 + 150*w.Choose(sim.KCfg, 4), BagNetwork: w.Choose(sim.KCfg, 2) == 1, Small: true})
+		out := raftrun.Run(w, raftrun.Options{RecordTrace: true, MaxSteps: 200 + 150*w.Choose(sim.KCfg, 4), BagNetwork: w.Choose(sim.KCfg, 2) == 1, Small: true, Quick: quick()})
 		sys := out.R.TLCSystem(repoRoot)
 		w.Count("spec_steps_raftkvs", len(out.Trace.States)-1)
 		w.Count("spec_steps", len(out.Trace.States)-1)
@@ -105,7 +133,7 @@ func scenario(w *sim.World) {
 		}
 		last.sys, last.key, last.trace, last.valid = sys, fmt.Sprintf("raftkvs/%v", sys.Consts), out.Trace, true
 	default:
-		n := 1 + w.Choose(sim.KCfg, 4)
+		n := 1 + pick(w, 4, 1, 2)
 		s := envsys.NewLockSvc(wd, n, false)
 		w.Event("system locksvc clients=%d", n)
 		runSystem(w, wd, s.TLCSystem(repoRoot), fmt.Sprintf("locksvc/%d", n), s, s.Settle, 40*(n+1)+100)
@@ -169,6 +197,10 @@ func (b *batch) Flush() (map[uint64]harness.BatchVerdict, error) {
 				what = fmt.Sprintf("step %d (%s) is not a step of the specification's Next", v.Step, tr.Steps[v.Step])
 				rule = "step_not_in_spec_" + rest.sys.Name
 			}
+			if v.EvalError {
+				what = fmt.Sprintf("step %d (%s): the specification's Next cannot be evaluated on this pair of states (TLC: %s)", v.Step, tr.Steps[v.Step], firstError(v.Output))
+				rule = "step_not_evaluable_" + rest.sys.Name
+			}
 			pre := ""
 			if v.Step > 0 {
 				pre = renderState(rest.sys, tr.States[v.Step-1])
@@ -189,6 +221,23 @@ func renderState(sys tlc.System, st tlc.State) string {
 		fmt.Fprintf(&sb, "%s=%s ", v, st[v])
 	}
 	return sb.String()
+}
+
+func firstError(o string) string {
+	for _, l := range strings.Split(o, "\n") {
+		if strings.HasPrefix(l, "Error:") && !strings.Contains(l, "The error occurred") {
+			return strings.TrimSpace(l)
+		}
+	}
+	i := strings.Index(o, "Error:")
+	if i >= 0 {
+		e := o[i:]
+		if len(e) > 300 {
+			e = e[:300]
+		}
+		return strings.ReplaceAll(e, "\n", " ")
+	}
+	return "evaluation error"
 }
 
 func tail(s string, n int) string {
@@ -230,9 +279,9 @@ func runPBKVS(w *sim.World, wd *env.World) {
 	}
 	// the spec's own initial clientInput (Init is checked too)
 	input := []tla.Value{mk(3, "key", "KEY1", "value", "VALUE1"), mk(3, "key", "KEY1", "value", "VALUE2"), mk(1, "key", "KEY1")}
-	nr := 1 + w.Choose(sim.KCfg, 3)
-	nc := 1 + w.Choose(sim.KCfg, 2)
-	explore := w.Choose(sim.KCfg, 2) == 1
+	nr := 1 + pick(w, 3, 1, 2)
+	nc := 1 + pick(w, 2, 0)
+	explore := pick(w, 2, 1) == 1
 	p := envsys.NewPBKVS(wd, nr, nc, explore, input)
 	w.Event("system pbkvs replicas=%d clients=%d explore=%v", nr, nc, explore)
 	runSystem(w, wd, p.TLCSystem(repoRoot), fmt.Sprintf("pbkvs/%d/%d/%v", nr, nc, explore), p, nil, 150+100*nr*nc)
